@@ -56,6 +56,23 @@ pub fn mf_equal(a: &[MF], b: &[MF]) -> Result<(), String> {
     Ok(())
 }
 
+/// Wrapper that logs the order in which gather() visits the collectors (the registry's hash-map iteration order).
+struct Logged {
+    inner: Box<dyn prometheus::core::Collector>,
+    idx: usize,
+    log: std::sync::Arc<std::sync::Mutex<Vec<usize>>>,
+}
+
+impl prometheus::core::Collector for Logged {
+    fn desc(&self) -> Vec<&prometheus::core::Desc> {
+        self.inner.desc()
+    }
+    fn collect(&self) -> Vec<prometheus::proto::MetricFamily> {
+        self.log.lock().unwrap().push(self.idx);
+        self.inner.collect()
+    }
+}
+
 fn specs_json(specs: &[MetricSpec]) -> Json {
     Json::Arr(
         specs
@@ -152,15 +169,18 @@ pub fn run_case(cx: &mut Ctx, mixed_kinds: bool) {
         }
     }
     let k = 3 + rng.usize_below(3);
+    let mut visit_orders: std::collections::BTreeSet<Vec<usize>> = Default::default();
     let mut gathers: Vec<Vec<MF>> = Vec::new();
     let mut orders: Vec<Vec<usize>> = Vec::new();
     for round in 0..k {
         let mut order: Vec<usize> = (0..specs.len()).collect();
         rng.shuffle(&mut order);
+        let visit_log = std::sync::Arc::new(std::sync::Mutex::new(Vec::new()));
         let build_and_gather = || -> Result<Vec<prometheus::proto::MetricFamily>, String> {
             let reg = regspec.build().map_err(|e| format!("registry refused: {}", e))?;
             for i in &order {
-                reg.register(built[*i].boxed()).map_err(|e| format!("register {} refused: {}", specs[*i].name, e))?;
+                let c = Logged { inner: built[*i].boxed(), idx: *i, log: visit_log.clone() };
+                reg.register(Box::new(c)).map_err(|e| format!("register {} refused: {}", specs[*i].name, e))?;
             }
             Ok(reg.gather())
         };
@@ -177,8 +197,14 @@ pub fn run_case(cx: &mut Ctx, mixed_kinds: bool) {
         check_exposition(cx, &pmfs, true, if mixed_kinds { "gather/mixed-kinds" } else { "gather/world" });
         gathers.push(extract_all(&pmfs));
         orders.push(order);
+        visit_orders.insert(visit_log.lock().unwrap().clone());
     }
     cx.part.count("registries_gathered", k as u64);
+    // how many *different* internal visiting orders the identical collector set was gathered in
+    cx.part.count("distinct_internal_collect_orders", visit_orders.len() as u64);
+    if specs.len() >= 3 && visit_orders.len() >= 2 {
+        cx.part.count("worlds_gathered_in_more_than_one_internal_order", 1);
+    }
     let detail = |g: &[MF]| jobj! {"specs" => specs_json(&specs), "registry" => format!("{:?}", regspec), "gathered" => families_json(g), "model" => families_json(&model)};
     let mixed_names = cx.mixed_kind_names.clone();
     // the model does not say which type a mixed-kind family gets; compare those only for determinism
